@@ -9,6 +9,7 @@ tests) and all values (`List Item`: unbounded sequences, maps, arrays).
 -/
 import EPV.Lemmas.SeqTypeInst
 import EPV.Lemmas.SeqTypeSpec
+import EPV.Lemmas.SeqTypeHist
 namespace EPV.C18
 open EPV.SeqType
 
@@ -169,5 +170,54 @@ theorem treat_as_returns_operand (tb : Tables) (xsd11 : Bool) (t : Ty) (v w : Li
   cases hi : instanceOf tb xsd11 t v with
   | error e => simp [hi] at h
   | ok b => cases b <;> simp [hi] at h; exact ⟨h.symm, rfl⟩
+
+/-! ## partial application and judgement histories -/
+
+/-- FULL statement (`partial_application_sig`), false on the current code (finding F18q):
+  the function item `f(mask)` has the parameter types of `f` at the placeholder positions (`partialSig`).
+The code takes the *first* `arity` parameter types.  Proved: the two coincide when the placeholders come
+first (`prefixMask`), e.g. `$f(?, 1, 2)`; counter-example `partial_application_counterexample`. -/
+theorem partial_application_sig_partial (a : Tys) (r : Ty) (mask : List Bool)
+    (hp : prefixMask mask = true) (hl : mask.length = a.length) :
+    (Item.func a r).partialApply mask = (Item.func a r).partialApplySpec mask := by
+  simp only [Item.partialApply, Item.partialApplySpec, implPartialArgs_eq_partialSig a mask hp hl]
+
+/-- matching a partial application is matching the function item whose signature is `partialSig`
+(all three judgements; on prefix masks) -/
+theorem match_partial_application (tb : Tables) (xsd11 : Bool) (t : Ty) (a : Tys) (r : Ty) (mask : List Bool)
+    (hp : prefixMask mask = true) (hl : mask.length = a.length) :
+    matchSt tb xsd11 true t [(Item.func a r).partialApply mask] = matchSt tb xsd11 true t [.func (partialSig a mask) r] ∧
+    instanceOf tb xsd11 t [(Item.func a r).partialApply mask] = instanceOf tb xsd11 t [.func (partialSig a mask) r] ∧
+    treatAs tb xsd11 t [(Item.func a r).partialApply mask] = treatAs tb xsd11 t [.func (partialSig a mask) r] := by
+  rw [partial_application_sig_partial a r mask hp hl]
+  exact ⟨rfl, rfl, rfl⟩
+
+/-- kernel-checked counter-example to the full statement: for `f : (A, B, C) → R` the code types
+`f(x, ?, ?)` as `(A, B) → R`, XPath as `(B, C) → R` -/
+theorem partial_application_counterexample :
+    let A : Ty := .leaf .item .one
+    let B : Ty := .leaf .anyNode .one
+    let C : Ty := .leaf .numeric .one
+    let args : Tys := .cons A (.cons B (.cons C .nil))
+    (implPartialArgs args [false, true, true]).beq (.cons A (.cons B .nil)) = true ∧
+    (partialSig args [false, true, true]).beq (.cons B (.cons C .nil)) = true ∧
+    prefixMask [false, true, true] = false := by decide
+
+/-- **Judgements are history independent.**  In any history (judgements by `match_sequence_type`,
+`instance of`, `treat as`, and partial applications, on a pool of items) the answer of every operation is
+the answer of that single operation on the pool obtained from the *partial applications* that precede it
+alone: no earlier judgement changes any later answer, a judgement is a function of (value, type). -/
+theorem judgement_history_independent (tb : Tables) (xsd11 : Bool) (pool : List Item)
+    (pre post : List HOp) (op : HOp) :
+    (hRun tb xsd11 pool (pre ++ op :: post))[pre.length]? =
+      some (hStep tb xsd11 (hPool tb xsd11 pool (pre.filter HOp.isPartial)) op).2 := by
+  rw [hRun_append, List.getElem?_append_right (by rw [hRun_length]; exact Nat.le_refl _), hRun_length,
+    Nat.sub_self, ← hPool_filter]
+  rfl
+
+/-- a judgement leaves the pool as it was -/
+theorem judgement_does_not_change_items (tb : Tables) (xsd11 : Bool) (pool : List Item) (op : HOp)
+    (h : op.isPartial = false) : (hStep tb xsd11 pool op).1 = pool :=
+  hStep_judgement_pool tb xsd11 pool op h
 
 end EPV.C18
